@@ -35,8 +35,8 @@ type orderEntry struct {
 // orderTable: sites that no automatic class covers, with the reason they are
 // order-insensitive. Keys are (function, ranged expression); never positions.
 var orderTable = []orderEntry{
-	{"(*cacheController).coSnoop", "requests", "each request becomes one snoop action appended to the coroutine's list; every action runs every cycle until it completes, and actions touch only their own line (eviction / write-back of that line, completion of that command): actions on distinct lines commute, and one core never has two requests of different kinds for one line pending (the second lock request for the line waits on the per-line semaphore)"},
-	{"(*memoryManagementUnit).doesExecutionMemoryChangesExistsInL1D", "execution.MemoryChanges", "the byte addresses of one store are probed through LRUCache.Get, which reorders lines; all bytes of a naturally aligned store lie in one resident line whenever lines do not overlap (R05.3 — reported under C05 for MVP-3/4/5), so the probe order cannot change which line is touched"},
+	{"(*cacheController).coSnoop", "‹map[msiCommandRequest]*msiCommandInfo›", "each request becomes one snoop action appended to the coroutine's list; every action runs every cycle until it completes, and actions touch only their own line (eviction / write-back of that line, completion of that command): actions on distinct lines commute, and one core never has two requests of different kinds for one line pending (the second lock request for the line waits on the per-line semaphore)"},
+	{"(*memoryManagementUnit).doesExecutionMemoryChangesExistsInL1D", "‹Execution›.MemoryChanges", "the byte addresses of one store are probed through LRUCache.Get, which reorders lines; all bytes of a naturally aligned store lie in one resident line whenever lines do not overlap (R05.3 — reported under C05 for MVP-3/4/5), so the probe order cannot change which line is touched"},
 }
 
 func runC08(r *Run) {
@@ -351,7 +351,7 @@ func ruleMapRanges(r *Run, rule string) {
 					if _, isMap := t.Underlying().(*types.Map); !isMap {
 						return true
 					}
-					ranged := types.ExprString(rs.X)
+					ranged := canonExpr(p.TypesInfo, rs.X)
 					if i := strings.Index(ranged, "(func("); i >= 0 {
 						ranged = ranged[:i] + "(…)"
 					}
@@ -562,7 +562,7 @@ func ruleGoroutines(r *Run, rule string) {
 						}
 						return true
 					})
-					r.check(pushes == 0 && badRemove == 0, rule, fmt.Sprintf("%s.%s:iterate(%s)#%d", rel, declName(fd), q, n), rs.Pos(), "the loop over the queue iterator never pushes to the queue it iterates (%d) and removes only the element it received (%d other removals): the sequence it sees is the queue's content at the call", pushes, badRemove)
+					r.check(pushes == 0 && badRemove == 0, rule, fmt.Sprintf("%s.%s:iterate(%s)#%d", rel, declName(fd), canonExpr(info, call.Fun.(*ast.SelectorExpr).X), n), rs.Pos(), "the loop over the queue iterator never pushes to the queue it iterates (%d) and removes only the element it received (%d other removals): the sequence it sees is the queue's content at the call", pushes, badRemove)
 					return true
 				})
 			}
@@ -741,7 +741,7 @@ func ruleComparators(r *Run, rule string) {
 					switch {
 					case fn.FullName() == "sort.Slice" && len(call.Args) == 2 && !(rel == "common/ds"):
 						n++
-						key := fmt.Sprintf("%s.%s:sort.Slice(%s)#%d", rel, declName(fd), types.ExprString(call.Args[0]), n)
+						key := fmt.Sprintf("%s.%s:sort.Slice(%s)#%d", rel, declName(fd), canonExpr(info, call.Args[0]), n)
 						lit, ok := call.Args[1].(*ast.FuncLit)
 						good := false
 						what := ""
